@@ -49,7 +49,8 @@ pub fn run(tier: Tier, seed: u64) -> i32 {
     // two histories whose media data passes 4 GiB (sparse stream), judged by the same validator
     {
         use rayon::prelude::*;
-        let volume: Vec<crate::props::c13::BigCase> = crate::props::c13::cases(Tier::Quick).into_iter().filter(|c| c.heavy && (c.name.starts_with("mdat_size=2^32+1") || c.name.starts_with("two_tracks_second_crosses"))).collect();
+        // ... and the histories whose durations, converted into the movie timescale, land just above 2^k (k = 31..63)
+        let volume: Vec<crate::props::c13::BigCase> = crate::props::c13::cases(Tier::Quick).into_iter().filter(|c| (c.heavy && (c.name.starts_with("mdat_size=2^32+1") || c.name.starts_with("two_tracks_second_crosses"))) || c.name.starts_with("converted_duration_just_above")).collect();
         let parts: Vec<Local> = volume
             .par_iter()
             .map(|c| {
